@@ -24,7 +24,7 @@ ASSUMPTIONS = [
     "an adversarial stream may be accepted only when it is a legal protocol run (first answer < 254 -> [a]; 254 -> []; 255 then strictly ascending values < 254 then 254)",
     "send-twice is the driver's job: the model executes a send-twice command once",
 ]
-BOUNDS = {"quick": "streams len<=5 (19 607); SetGroups pairs over 2^6-subsets of low and high byte (3 x 4096 x 4 destinations)",
+BOUNDS = {"quick": "streams len<=6 (137 256); SetGroups pairs over 2^6-subsets of low and high byte (3 x 4096 x 4 destinations)",
           "thorough": "streams len<=7 (960 799); SetGroups pairs over 2^8-subsets (3 x 65 536 x 4 destinations)"}
 
 ALPHA = ["none", "err", 0, 1, 6, 254, 255]
@@ -33,7 +33,7 @@ CAP = 300
 
 def shards(tier):
     out = [("dt_lists",)]
-    L = 5 if tier == "quick" else 7
+    L = 6 if tier == "quick" else 7
     for first in range(len(ALPHA)):
         for second in range(len(ALPHA) + 1):
             out.append(("streams", L, first, second))
